@@ -65,6 +65,7 @@ def oracle (metas : List Meta) (obs : List TObs) : String :=
     else if (m.label == 0 || m.label == 1) && !(os.any (fun o => o.state == "C")) then some "FAIL:in-order-transfer-not-complete"
     else if m.label == 2 && os.any (fun o => o.state == "C") then some "FAIL:faulty-transfer-reported-complete"
     else none
+  if obs.any (fun o => o.state.startsWith "C!") then "C17=FAIL:list-entry-saves-content-of-another-transfer" else
   match bad with
   | [] => "C17=ok"
   | e :: _ => "C17=" ++ e
